@@ -243,7 +243,7 @@ func runC09(pl *plan.Plan, out *plan.Outcome) {
 		}
 	}
 	if res != "done" && out.Trouble == "" {
-		out.Trouble = "run ended: " + res
+		env.runEnded(res, out)
 	}
 	if sess == nil {
 		return
